@@ -308,14 +308,13 @@ pub fn scenarios(thorough: bool) -> Vec<Scenario> {
         add("stderr-big-before-reading-exit1", Some("stderr:big;read:all;exit:1"), "stub", "default", true);
         add("stderr2-then-genuine", Some("read:all;stderr:2;write:real;exit:0"), "stub", "default", false);
         add("slow-genuine", Some("read:all;sleep:300;write:real;exit:0"), "stub", "default", false);
-        // a formatter that is merely slow (just above 1 s, 2 s, 5 s; thorough: 10 s, 30 s): still a success
+        // a formatter that is merely slow (just above 1 s, 2 s, 5 s; thorough: 10 s - the scenario runner's own hang cap is 20 s): still a success
         add("slow-genuine-1200ms", Some("read:all;sleep:1200;write:real;exit:0"), "stub", "default", false);
         add("slow-genuine-2500ms", Some("read:all;sleep:2500;write:real;exit:0"), "stub", "default", false);
         add("slow-genuine-5500ms", Some("read:all;sleep:5500;write:real;exit:0"), "stub", "default", false);
         add("slow-before-reading-2500ms", Some("sleep:2500;read:all;write:real;exit:0"), "stub", "default", false);
         if thorough {
             add("slow-genuine-11000ms", Some("read:all;sleep:11000;write:real;exit:0"), "stub", "default", false);
-            add("slow-genuine-31000ms", Some("read:all;sleep:31000;write:real;exit:0"), "stub", "default", false);
         }
         add("genuine-via-stub", Some("read:all;write:real;exit:0"), "stub", "default", false);
         if thorough {
